@@ -342,5 +342,138 @@ theorem parse_refines (cols extras : List String) (reader : FileReader) (stream 
   cases n <;> cases hfl : stream.fail <;> simp [outcome, hfl, Py.finishX, hvals, hcom, hwarn, hr, hkeys]
   split <;> rfl
 
+/-! ## what the fold computes -/
+
+/-- the line is neither a data row, a comment nor blank -/
+def isInvalid (l : L) : Bool := (rowOf l).isNone && (commentOf l).isNone && !blank l
+/-- the converted fields of a data row -/
+def rowAt (l : L) : Option (List Val) := (rowOf l).map (·.1)
+/-- a data row with fields beyond the requested columns -/
+def tailAt (l : L) : Bool := match rowOf l with | some (_, t) => t | none => false
+/-- the comment a line contributes (not a data row, a comment, not the column header) -/
+def keptComment (l : L) : Option C :=
+  match rowOf l with
+  | some _ => none
+  | none => match commentOf l with
+    | some c => if isHeader c then none else some c
+    | none => none
+/-- 1-based number of the first data row with a non-empty tail (lines numbered from `i + 1`) -/
+def firstTail : List L → Int → Option Int
+  | [], _ => none
+  | l :: ls, i => if tailAt rowOf l then some (i + 1) else firstTail ls (i + 1)
+
+theorem firstTail_isSome : ∀ (ls : List L) (i : Int), (firstTail rowOf ls i).isSome = ls.any (tailAt rowOf) := by
+  intro ls
+  induction ls with
+  | nil => intro i; rfl
+  | cons l ls ih => intro i; by_cases h : tailAt rowOf l = true <;> simp [firstTail, h, ih]
+
+theorem step_invalid (i : Int) (l : L) (st : St Val C) (h : isInvalid rowOf commentOf blank l = true) :
+    step rowOf commentOf isHeader blank i l st = none := by
+  simp only [isInvalid, Bool.and_eq_true, Option.isNone_iff_eq_none, Bool.not_eq_true'] at h
+  simp [step, h.1.1, h.1.2, h.2]
+
+/-- **No invalid line**: the loop runs to the end; every data row is appended to the columns, the kept comments are collected in order,
+the flag goes down at the first row with a tail, which is the one warning -/
+theorem loop_valid : ∀ (ls : List L) (i : Int) (st : St Val C), (∀ l ∈ ls, isInvalid rowOf commentOf blank l = false) →
+    loop rowOf commentOf isHeader blank ls i st =
+      (⟨(ls.filterMap (rowAt rowOf)).foldl appendRow st.vals, st.comments ++ ls.filterMap (keptComment rowOf commentOf isHeader),
+        st.flag && (firstTail rowOf ls i).isNone,
+        st.warns ++ (if st.flag then (match firstTail rowOf ls i with | some n => [warnExc n] | none => []) else [])⟩, none) := by
+  intro ls
+  induction ls with
+  | nil => intro i st _; cases st; cases ‹Bool› <;> simp [loop, firstTail]
+  | cons l ls ih =>
+    intro i st h
+    have hl := h l (by simp)
+    have ih' := fun st' => ih (i + 1) st' (fun m hm => h m (by simp [hm]))
+    simp only [loop, step]
+    cases hr : rowOf l with
+    | some ft =>
+      obtain ⟨fs, t⟩ := ft
+      simp only [ih', rowAt, hr, keptComment, tailAt, firstTail, List.filterMap_cons, Option.map_some, List.foldl_cons]
+      cases st.flag <;> cases t <;> simp
+    | none =>
+      cases hc : commentOf l with
+      | some c =>
+        simp only [ih', rowAt, hr, hc, keptComment, tailAt, firstTail, List.filterMap_cons, Option.map_none]
+        by_cases hh : isHeader c = true <;> simp [hh]
+      | none =>
+        have hb : blank l = true := by simpa [isInvalid, hr, hc] using hl
+        simp only [hb, if_true, ih', rowAt, hr, hc, keptComment, tailAt, firstTail, List.filterMap_cons, Option.map_none]
+        simp
+
+/-- **An invalid line anywhere**: the loop stops there, with the number of the FIRST such line (and what it had accumulated) -/
+theorem loop_invalid (bad : L) (post : List L) (hbad : isInvalid rowOf commentOf blank bad = true) :
+    ∀ (pre : List L) (i : Int) (st : St Val C), (∀ l ∈ pre, isInvalid rowOf commentOf blank l = false) →
+    loop rowOf commentOf isHeader blank (pre ++ bad :: post) i st =
+      ((loop rowOf commentOf isHeader blank pre i st).1, some (i + pre.length + 1)) := by
+  intro pre
+  induction pre with
+  | nil => intro i st _; simp [loop, step_invalid rowOf commentOf isHeader blank i bad st hbad]
+  | cons l pre ih =>
+    intro i st h
+    have ih' := fun st' => ih (i + 1) st' (fun m hm => h m (by simp [hm]))
+    simp only [List.cons_append, loop]
+    cases hs : step rowOf commentOf isHeader blank i l st with
+    | some st' => simp only [ih']; congr 2; simp; omega
+    | none =>
+      exfalso
+      have hl := h l (by simp)
+      unfold step at hs
+      cases hr : rowOf l with
+      | some ft => simp [hr] at hs
+      | none =>
+        cases hc : commentOf l with
+        | some c => simp [hr, hc] at hs
+        | none =>
+          have hb : blank l = true := by simpa [isInvalid, hr, hc] using hl
+          simp [hr, hc, hb] at hs
+
+/-- either no line is invalid, or there is a first invalid one -/
+theorem first_invalid (ls : List L) :
+    (∀ l ∈ ls, isInvalid rowOf commentOf blank l = false) ∨
+    ∃ pre bad post, ls = pre ++ bad :: post ∧ (∀ l ∈ pre, isInvalid rowOf commentOf blank l = false) ∧ isInvalid rowOf commentOf blank bad = true := by
+  induction ls with
+  | nil => left; simp
+  | cons l ls ih =>
+    by_cases hl : isInvalid rowOf commentOf blank l = true
+    · right; exact ⟨[], l, ls, rfl, by simp, hl⟩
+    · rcases ih with ih | ⟨pre, bad, post, rfl, hpre, hbad⟩
+      · left; intro m hm; simp at hm; rcases hm with rfl | hm
+        · simpa using hl
+        · exact ih m hm
+      · right; refine ⟨l :: pre, bad, post, rfl, ?_, hbad⟩
+        intro m hm; simp at hm; rcases hm with rfl | hm
+        · simpa using hl
+        · exact hpre m hm
+
+/-- the columns after appending the rows one by one: EVERY column `j` received exactly the `j`-th field of every row, in order -/
+theorem columns (k : Nat) : ∀ (rows : List (List Val)) (vals : List (List Val)), vals.length = k → (∀ fs ∈ rows, k ≤ fs.length) →
+    (rows.foldl appendRow vals).length = k ∧
+    ∀ j, j < k → (rows.foldl appendRow vals)[j]? = (vals[j]?).map (· ++ rows.filterMap (·[j]?)) := by
+  intro rows
+  induction rows with
+  | nil => intro vals hl _; refine ⟨hl, fun j _ => ?_⟩; simp
+  | cons fs rows ih =>
+    intro vals hl hrows
+    have hfs : k ≤ fs.length := hrows fs (by simp)
+    have hlen : (appendRow vals fs).length = k := by rw [appendRow_length _ _ (by omega), hl]
+    obtain ⟨h1, h2⟩ := ih (appendRow vals fs) hlen (fun f hf => hrows f (by simp [hf]))
+    refine ⟨h1, fun j hj => ?_⟩
+    rw [List.foldl_cons, h2 j hj]
+    have hv : j < vals.length := by omega
+    have hf : j < fs.length := by omega
+    simp [appendRow, List.getElem?_zipWith, List.getElem?_eq_getElem hv, List.getElem?_eq_getElem hf]
+
+/-- … so every column has one entry per data row -/
+theorem column_length (k : Nat) (rows : List (List Val)) (hrows : ∀ fs ∈ rows, k ≤ fs.length) (j : Nat) (hj : j < k) :
+    (rows.filterMap (·[j]?)).map some = rows.map (·[j]?) := by
+  induction rows with
+  | nil => rfl
+  | cons fs rows ih =>
+    have hf : j < fs.length := by have := hrows fs (by simp); omega
+    simp [List.getElem?_eq_getElem hf, ih (fun f hf => hrows f (by simp [hf]))]
+
 end
 end RefineParse
